@@ -19,6 +19,7 @@ Sig == [interpret |-> <<<<"tree">>, "graph", FALSE>>,
         format |-> <<<<"tree">>, "", FALSE>>,
         encode |-> <<<<"graph">>, "", FALSE>>,
         decode_encode |-> <<<<"graph">>, "graph", FALSE>>,
+        copy_graph |-> <<<<"graph">>, "graph", FALSE>>,
         canonicalize_roles |-> <<<<"tree">>, "tree", FALSE>>,
         reify_edges |-> <<<<"graph">>, "graph", FALSE>>,
         dereify_edges |-> <<<<"graph">>, "graph", FALSE>>,
